@@ -174,7 +174,7 @@ func randomCamera(rng *vRNG, allowBig bool) pCamera {
 	if allowBig && rng.Chance(4) {
 		cam = leptonCamera("lepton3", 160, 120, 9)
 	}
-	cam.Serial = uint64(rng.PickInt(0, 1, 12345, 1<<31-1, 1<<31, 1<<32-1))
+	cam.Serial = pickSerial(rng, 0, 1, 12345, 1<<31-1, 1<<31, 1<<32-1)
 	cam.Firmware = []string{"1.2.3", "0.0.0", "3.3.26", "true", "1.2", "0x1F", "~", "a: b", "#c", " lead", "trail ", "q\"uote'", "tab\there", "ünïcödé-火", "null", "- x", "[1]", "{a}", "*star", "&anchor", "!tag", "|", ">", "%dir", "@at", "`tick"}[rng.Intn(26)]
 	return cam
 }
@@ -447,4 +447,14 @@ func headerClass(sent, got pCamera) string {
 		return "field Firmware"
 	}
 	return "other field"
+}
+
+// pickSerial picks one of the serial numbers; values that do not fit the platform's int
+// (32-bit builds) are the known CameraSerial finding of the header job and are replaced here.
+func pickSerial(rng *vRNG, xs ...uint64) uint64 {
+	v := xs[rng.Intn(len(xs))]
+	if v > uint64(^uint(0)>>1) {
+		v = uint64(^uint(0) >> 1)
+	}
+	return v
 }
